@@ -1186,23 +1186,16 @@ fn crypto_roundtrip(offset: VarInt) {
     }
     kani::cover!(length == 64, "2-byte length varint");
     kani::cover!(length == 1, "1-byte length varint");
+    kani::cover!(offset.into_u64() >= (1 << 61), "offset >= 2^61 (used to be rejected by the decoder)");
 }
 
 fn rt_crypto_data_roundtrip() {
-    // any offset (offsets >= 2^61 used to be rejected by the decoder: defect fixed in /repo; the
-    // high half is additionally isolated in c05_crypto_high_offset)
+    // any offset (offsets >= 2^61 used to be rejected by the decoder: defect fixed in /repo; a cover
+    // witness keeps the high half reachable)
     let offset = any_varint();
     crypto_roundtrip(offset);
 }
 
-/// C05 (genuine defect on the pinned tree, fixed in /repo; kept so that a regression is reported): `be_crypto_frame` tests `offset + offset > VARINT_MAX`
-/// (typo for `offset + length`), so a valid CRYPTO frame with offset >= 2^61 (offset + length <=
-/// 2^62-1) is encodable but its own decoder rejects it (TooLarge -> FRAME_ENCODING_ERROR).
-fn rt_crypto_high_offset() {
-    let offset = any_varint();
-    kani::assume(offset.into_u64() >= (1 << 61));
-    crypto_roundtrip(offset);
-}
 
 /// C05 DATAGRAM (0x30 without / 0x31 with length) with 0..=64 bytes of data.
 fn rt_datagram_roundtrip() {
@@ -1549,13 +1542,3 @@ dual! {
     }
 }
 
-/// C05 (genuine defect on the pinned tree, fixed in /repo; kept so that a regression is reported): `be_crypto_frame` tests `offset + offset > VARINT_MAX`
-/// (typo for `offset + length`), so a valid CRYPTO frame with offset >= 2^61 (offset + length <=
-/// 2^62-1) is encodable but its own decoder rejects it (TooLarge -> FRAME_ENCODING_ERROR).
-#[kani::proof]
-#[kani::stub(core::slice::index::slice_index_fail, stub_slice_index_fail)]
-#[kani::unwind(10)]
-#[kani::stub(crate::varint::be_varint, model_be_varint)]
-fn c05_crypto_high_offset() {
-    rt_crypto_high_offset()
-}
